@@ -4,6 +4,7 @@ import (
 	"context"
 	"dvh/internal/crashstore"
 	"fmt"
+	"github.com/oneconcern/datamon/pkg/storage"
 	"github.com/oneconcern/datamon/pkg/storage/localfs"
 	"github.com/spf13/afero"
 	"os"
@@ -91,6 +92,21 @@ func c15Emit(c *ctx, env *corekit.Env, leaf int, per uint, a *c15Actor, what str
 	c.w.End()
 }
 
+// c15SlowProbe delays the answer of GetAttr / Has (not the probe itself).
+type c15SlowProbe struct{ *memstore.Store }
+
+func (s *c15SlowProbe) GetAttr(ctx context.Context, k string) (storage.Attributes, error) {
+	a, err := s.Store.GetAttr(ctx, k)
+	time.Sleep(300 * time.Microsecond)
+	return a, err
+}
+
+func (s *c15SlowProbe) Has(ctx context.Context, k string) (bool, error) {
+	ok, err := s.Store.Has(ctx, k)
+	time.Sleep(300 * time.Microsecond)
+	return ok, err
+}
+
 func c15(c *ctx) error {
 	n := 24
 	if c.thorough() {
@@ -144,6 +160,9 @@ func c15(c *ctx) error {
 			c.w.Count("op=" + a.kind)
 		}
 		c.w.Count(fmt.Sprintf("goroutines=%d", g))
+		// the existence probes of the blob store answer a little late: concurrent writers of one blob all
+		// see it absent before any of them writes it (the window every check-then-act falls into)
+		cst := corekit.WithStores(env.Wal, env.ReadLog, &c15SlowProbe{Store: env.Blob}, env.Meta, env.VMeta)
 		var wg sync.WaitGroup
 		start := make(chan struct{})
 		for _, a := range actors {
@@ -153,7 +172,7 @@ func c15(c *ctx) error {
 				<-start
 				switch a.kind {
 				case "upload":
-					b := corekit.NewBundle(env.Stores, "r", corekit.TreeStore(c15Files(a.tree)), uint32(leaf), "")
+					b := corekit.NewBundle(cst, "r", corekit.TreeStore(c15Files(a.tree)), uint32(leaf), "")
 					a.err = corekit.Recover(func() error { return core.VerifUpload(context.Background(), b, per, nil) })
 					a.bundleID = b.BundleID
 				case "download":
